@@ -15,6 +15,8 @@ pub struct C02;
 #[derive(Clone, Debug)]
 enum X {
     Lit(V),
+    /// a variable that was never assigned: it reads as the 0 (or "") of the type its name gives it
+    Var(V),
     Bin(Box<X>, BinOp, Box<X>),
     Un(UnOp, Box<X>),
 }
@@ -43,7 +45,24 @@ fn rand_lit(rng: &mut Rng) -> V {
     }
 }
 
+fn var_text(v: &V) -> String {
+    match v {
+        V::I(_) => "Z0%".into(),
+        V::S(_) => "Z0!".into(),
+        V::D(_) => "Z0#".into(),
+        V::Str(_) => "Z0$".into(),
+    }
+}
+
 fn gen(rng: &mut Rng, depth: usize, strings: bool) -> X {
+    if rng.chance(1, 12) {
+        return match rng.usize(if strings { 4 } else { 3 }) {
+            0 => X::Var(V::I(0)),
+            1 => X::Var(V::S(0.0)),
+            2 => X::Var(V::D(0.0)),
+            _ => X::Var(V::Str(String::new())),
+        };
+    }
     if depth == 0 || rng.chance(1, 4) {
         loop {
             let l = rand_lit(rng);
@@ -64,6 +83,7 @@ fn gen(rng: &mut Rng, depth: usize, strings: bool) -> X {
 fn render_min(x: &X, parent: u8, right_side: bool) -> String {
     match x {
         X::Lit(v) => lit_text(v),
+        X::Var(v) => var_text(v),
         X::Un(op, a) => {
             let lvl = op.level();
             let inner = render_min(a, lvl, false);
@@ -92,6 +112,7 @@ fn render_min(x: &X, parent: u8, right_side: bool) -> String {
 fn render_full(x: &X) -> String {
     match x {
         X::Lit(v) => lit_text(v),
+        X::Var(v) => var_text(v),
         X::Un(op, a) => {
             if *op == UnOp::Not {
                 format!("(NOT {})", render_full(a))
@@ -112,7 +133,7 @@ fn render_full(x: &X) -> String {
 /// (value, used ^ somewhere)
 fn model_eval(x: &X) -> (mv::MR<V>, bool) {
     match x {
-        X::Lit(v) => (Ok(v.clone()), false),
+        X::Lit(v) | X::Var(v) => (Ok(v.clone()), false),
         X::Un(op, a) => {
             let (v, p) = model_eval(a);
             match v {
@@ -570,7 +591,7 @@ impl C02 {
         let pow_below_root = match &x {
             X::Bin(l, _, r) => model_eval(l).1 || model_eval(r).1,
             X::Un(_, a) => model_eval(a).1,
-            X::Lit(_) => false,
+            X::Lit(_) | X::Var(_) => false,
         };
         if pow_below_root {
             ctx.count("value_not_judged_pow_below_root");
@@ -710,6 +731,7 @@ fn pow_exponent(x: &X) -> f64 {
 fn top_op(x: &X) -> String {
     match x {
         X::Lit(_) => "literal".into(),
+        X::Var(_) => "variable".into(),
         X::Un(op, _) => format!("unary{}", op.text()),
         X::Bin(_, op, _) => op.text().to_string(),
     }
